@@ -90,6 +90,11 @@ CHECKS = {
   text="Templates with identifiers and externals at operand positions, every small AST that mentions an identifier, and random programs are run under hosts that resolve none/some/all symbols (to values and externals) and accept or decline external applies, with input values defining none/some/all identifiers. Each program runs four ways: wrapper-scripted host on both stores, SimpleGarnishData::set_resolver, and a BasicDataCompanion implementing resolve and apply. The recorded sequence of resolve(symbol) / apply(external, argument) calls and the final value must equal the reference evaluator's; the log written inside the native callback must equal the one at the trait boundary. Held on the programs observed.",
   note="trusts: the reference evaluator's lookup rule (input value first, then host) and left-to-right operand order; SimpleGarnishData has no apply hook, so native acceptance of external applies is exercised on BasicGarnishData only (as the property scopes it)",
   design="DESIGN.md §5 C17"),
+ "C18": dict(
+  technique="runtime monitor: metamorphic oracle over executions - each generated program is run as printed and after every single meaning-free layout rewrite (and random combinations); observed parse tree, final value on both stores and host-call sequence are compared; where a rewrite is admissible is decided by the reference lexer and reference parser, not by the code under test",
+  text="Every small AST and random larger programs are rewritten at every position: widen / replace / remove blank runs, insert a blank or an annotation between adjacent tokens, annotation or comment line inside a blank run, trailing blanks before line breaks and at the end, comment lines after line breaks and at the start, parentheses around every operand, effect-free side-effect blocks added after every value or group and dropped where present, plus random combinations of 2..7 rewrites. The rewritten text must parse to the same tree (modulo trivia, added groups, added blocks) and produce the same value and resolve-call sequence on both stores. Held on the programs and rewrite positions observed.",
+  note="trusts: the reference lexer/parser as the judge of where blanks may be added or removed; programs with side-effect blocks have no reference tree and only get rewrites that need no confirmation plus the structural ones",
+  design="DESIGN.md §5 C18"),
 }
 
 NOT_YET = "check not built yet in this round (work in progress; will be claimed once its monitor exists)"
